@@ -8,6 +8,7 @@ use vstd::prelude::*;
 use vstd::arithmetic::div_mod::*;
 use vstd::arithmetic::mul::*;
 verus! {
+//@export-begin
 
 // the CSS definition, from the property (C20): the element matches iff idx = a*n + b for some integer n >= 0
 spec fn nth_matches(a: int, b: int, idx: int) -> bool { exists|n: int| n >= 0 && idx == #[trigger] (a * n) + b }
@@ -64,6 +65,7 @@ proof fn lemma_nth(a: int, b: int, idx: int)
     }
 }
 
+//@export-end
 //@slice src/css.rs :: impl Selector :: fn do_matches :: /\/\* The selector matches if idx == a\*n \+ b/ .. /(?m)^                \}\n            \},\n        \}/
 //@name nth_slice
 //@auto C01 C20
